@@ -701,7 +701,7 @@ def main():
         flat_cfgs = [(E, S_) for E, S_ in shapes(maxN) if E > 1]
         sample_cfgs = [(1, 5, 2), (2, 2, 3), (2, 3, 6), (3, 2, 4), (4, 3, 5), (2, 6, 4)]
         key_cfgs = [(2, 2, 2, 2), (2, 2, 3, 1), (1, 4, 4, 2)]
-        visit_cfgs = [(2, 2, 1, 2), (1, 5, 1, 2), (2, 2, 2, 2), (2, 3, 1, 3), (1, 5, 2, 2), (2, 3, 2, 3), (2, 4, 1, 2), (2, 4, 1, 4), (1, 7, 1, 3)]   # N<=8 one epoch, N<=6 two epochs (N=8, 2 epochs: > 150 s)
+        visit_cfgs = [(2, 2, 1, 2), (1, 5, 1, 2), (1, 5, 1, 3), (2, 2, 2, 2), (2, 3, 1, 3), (1, 5, 2, 2), (2, 3, 2, 3), (2, 4, 1, 2), (2, 4, 1, 4), (1, 7, 1, 3), (1, 7, 1, 4), (2, 3, 1, 4)]   # N<=8 one epoch, N<=6 two epochs (N=8, 2 epochs: > 150 s)
         ch = ((0, 1, 2, 3), (1, 2, 3), 60)
     else:
         maxN = 8
@@ -711,7 +711,8 @@ def main():
         flat_cfgs = [(2, 1), (2, 2), (2, 3), (3, 2), (4, 2), (2, 4)]
         sample_cfgs = [(1, 4, 2), (2, 2, 3), (2, 3, 6)]
         key_cfgs = [(2, 2, 2, 2), (1, 4, 3, 2)]
-        visit_cfgs = [(2, 2, 1, 2), (1, 5, 1, 2), (2, 2, 2, 2)]
+        # (E, S, epochs, num_batches); (1,5,1,3): num_batches does not divide N and floor(N/B) > num_batches (B = N // num_batches = 1)
+        visit_cfgs = [(2, 2, 1, 2), (1, 5, 1, 2), (1, 5, 1, 3), (2, 2, 2, 2)]
         ch = ((0, 1, 2), (1, 2), 30)
     ck.bound(max_samples_N=maxN, batches_configs_E_S_B=[list(c) for c in cfgs], batch_indices_N_B="all 1<=B<=N<=%d" % maxN, gather_N_B=[list(c) for c in gather_cfgs],
              flatten_E_S=[list(c) for c in flat_cfgs], rollout_sample_E_S_B=[list(c) for c in sample_cfgs], train_keys_E_S_epochs_batches=[list(c) for c in key_cfgs],
